@@ -11,12 +11,14 @@ namespace C02
 open Lex Grammar Build
 
 /-- the table of the content model that a described table stands for -/
-def flagTable (t : FTab FCol) : Table := { name := t.name, columns := t.cols.map FCol.col, comment := t.comment }
+def flagTable (t : FTab FCol) : Table :=
+  { name := t.name, columns := t.cols.map FCol.col, comment := t.comment, note := t.note }
 
-/-- what the theorems ask of a described table: a quoted name, at least one column, every column `FCol.ok`, and the
-    comment (if any) one line beginning with a visible character -/
+/-- what the theorems ask of a described table: a quoted name, at least one column, every column `FCol.ok`, the
+    comment (if any) one line beginning with a visible character, and the note (if any) one plain normalised line
+    without a triple quote -/
 def FlagTabOK (ap : Bool) (t : FTab FCol) : Prop :=
-  NameOK t.name ∧ (∀ s ∈ t.cols, s.ok ap) ∧ t.cols ≠ [] ∧ CmOK t.comment
+  NameOK t.name ∧ (∀ s ∈ t.cols, s.ok ap) ∧ t.cols ≠ [] ∧ CmOK t.comment ∧ TNoteOK t.note
 
 /-- **C02 (and the round-trip clauses of C14 and C15) for documents of tables with column settings, end to end**: a
     database holding any positive number of tables with pairwise different names (schema public), each possibly under a
